@@ -54,6 +54,7 @@ type Verifier struct {
 	relied       map[string][]string
 	feasQueries  int
 	funcIDs      map[string]int
+	inlinedNoContract map[string]bool
 	conforms     map[string][]conformTo // function value -> function-type contracts it is used under
 }
 
@@ -175,6 +176,16 @@ func (v *Verifier) notePostulate(name string) {
 	v.postulated[name] = true
 	v.mu.Unlock()
 }
+// noteInlinedNoContract records that a contract-less package function was executed in place (reported in the evidence).
+func (v *Verifier) noteInlinedNoContract(caller, callee string) {
+	v.mu.Lock()
+	defer v.mu.Unlock()
+	if v.inlinedNoContract == nil {
+		v.inlinedNoContract = map[string]bool{}
+	}
+	v.inlinedNoContract[callee+" (in "+caller+")"] = true
+}
+
 func (v *Verifier) noteRelies(name string, cs []*Clause) {
 	v.mu.Lock()
 	if v.relied == nil {
